@@ -349,6 +349,8 @@ class Network:
             self.verified_peers = new_verified_peers
             for peer in removed_peers:
                 self.verified_by_public_key_bin.pop(peer.public_key.key_to_bin(), None)
+            # Only notify once our own bookkeeping is complete: an observer may raise or call back into us.
+            for peer in removed_peers:
                 list(map(methodcaller("on_peer_removed", peer), self.peer_observers))
 
     def remove_peer(self, peer: Peer) -> None:
@@ -360,11 +362,14 @@ class Network:
         with self.graph_lock:
             for address in peer.addresses.values():
                 self._all_addresses.pop(address, None)
-            if peer in self.verified_peers:
+            was_verified = peer in self.verified_peers
+            if was_verified:
                 self.verified_peers.remove(peer)
-                list(map(methodcaller("on_peer_removed", peer), self.peer_observers))
             self.verified_by_public_key_bin.pop(peer.public_key.key_to_bin(), None)
             self.services_per_peer.pop(peer.public_key.key_to_bin(), None)
+            if was_verified:
+                # Only notify once our own bookkeeping is complete: an observer may raise or call back into us.
+                list(map(methodcaller("on_peer_removed", peer), self.peer_observers))
 
     def snapshot(self) -> bytes:
         """
